@@ -138,6 +138,8 @@ type checkRun struct {
 
 var engineOnlyLabels = map[string]bool{"unbounded-time": true, "unbounded-recursion": true, "uncaught-panic": true, "use-after-put": true, "pool-double-put": true, "deadlock": true, "unlock-unlocked": true}
 
+var ghostLabels = map[string]bool{"no-use-of-recycled-buffer": true}
+
 func runCheck(def *CheckDef, flags map[string]string) int {
 	t0 := time.Now()
 	tier := flags["tier"]
@@ -323,6 +325,12 @@ func runCheck(def *CheckDef, flags map[string]string) int {
 					ok = true
 				}
 			}
+			// a read of recycled pool memory is a ghost condition the native run cannot
+			// observe by itself; its consequence - any assertion of the same harness
+			// failing in the native replay of this very input - confirms it
+			if ghostLabels[l] && len(c.Native.Failed) > 0 {
+				ok = true
+			}
 		}
 		if c.Native.Crashed {
 			ok = true
@@ -438,7 +446,7 @@ func runCheck(def *CheckDef, flags map[string]string) int {
 		"stubs":                         def.Stubs,
 		"queries": map[string]interface{}{"total": stats.Queries, "branch": stats.BranchQueries, "assertion": stats.AssertQueries,
 			"sat": stats.Sat, "unsat": stats.Unsat, "unknown": stats.Unknown, "solver_restarts_after_error": stats.Restarts},
-		"byte_domain": map[string]interface{}{"decisions": stats.DomainDecisions, "rechecked_by_solver": stats.DomainRechecks, "disagreements": stats.DomainDisagreements,
+		"byte_domain": map[string]interface{}{"decisions": stats.DomainDecisions, "rechecked_by_solver": stats.DomainRechecks, "disagreements": stats.DomainDisagreements, "refined_by_multi_byte_constraints": stats.DomainRefinements,
 			"recheck_rate": engine.RecheckRate},
 		"solver":               backend,
 		"solver_s":             stats.SolverTime.Seconds(),
